@@ -2,7 +2,9 @@
 
 E2 bounded enumeration on the real Element / Substance / Material classes.
 
-  composite  Element B, O{17-2}; Substance H2O, Ca(OH)2, C2H5OH (formula string and dictionary input); Material by
+  composite  Element B, O{17-2}, [p], [e]; Substance H2O, Ca(OH)2, C2H5OH (formula string and dictionary input) and
+             nucleon-first / nucleon-last substances [p][e], [e][p], [p]2O, O[n]2; materials starting / ending
+             with a nucleon substance; Material by
              number fractions (string and dictionary input, 2 and 3 components) and by mass fractions (string and
              dictionary input);
   given      a mass density {0.997, 19.3, 1.2e-3 g/cm3} written in {g/cm3, kg/m3, kg/l}, or a number density
@@ -72,7 +74,22 @@ COMPOSITES = {
     "material:mass:dict": ("Material", "dict", {"H2O": 0.2, "NaCl": 0.3}, {"H2O": 0.2, "NaCl": 0.3}, "mass"),
     "material:mass:dict3": ("Material", "dict", {"N2": 75.5, "O2": 23.2, "Ar": 1.3},
                             {"N2": 75.5, "O2": 23.2, "Ar": 1.3}, "mass"),
+    # composites whose FIRST (or only, or last) component is a nucleon: their masses come from the unit table rows
+    # [m_p], [m_e] instead of the isotope table, in both orders
+    "element:[p]": ("Element", "expr", "[p]", {"[p]": 1}, "number"),
+    "element:[e]": ("Element", "expr", "[e]", {"[e]": 1}, "number"),
+    "substance:[p][e]:str": ("Substance", "str", "[p][e]", {"[p]": 1, "[e]": 1}, "number"),
+    "substance:[e][p]:str": ("Substance", "str", "[e][p]", {"[e]": 1, "[p]": 1}, "number"),
+    "substance:[e][p]:dict": ("Substance", "dict", {"[e]": 1, "[p]": 1}, {"[e]": 1, "[p]": 1}, "number"),
+    "substance:[p]2O:str": ("Substance", "str", "[p]2O", {"[p]": 2, "O": 1}, "number"),
+    "substance:O[n]2:str": ("Substance", "str", "O[n]2", {"O": 1, "[n]": 2}, "number"),
+    "material:number:[p]-first:dict": ("Material", "dict", {"[p]": 0.2, "H2O": 0.3}, {"[p]": 0.2, "H2O": 0.3},
+                                       "number"),
+    "material:number:[p]-first:str": ("Material", "str", "0.2 <[p]> 0.3 <H2O>", {"[p]": 0.2, "H2O": 0.3}, "number"),
+    "material:number:[p]-last:str": ("Material", "str", "0.3 <H2O> 0.2 <[p]>", {"H2O": 0.3, "[p]": 0.2}, "number"),
+    "material:mass:[e]-first:dict": ("Material", "dict", {"[e]": 0.2, "H2O": 0.3}, {"[e]": 0.2, "H2O": 0.3}, "mass"),
 }
+NUCLEON_COMPOSITES = [c for c in COMPOSITES if "[" in c]      # isotope mode is irrelevant: natural=True only
 
 # operation histories on live composites that carry a density (E1): every sequence of 1..HDEPTH add() calls; the
 # operators + and * return a new composite WITHOUT the density (nothing of this statement can be observed on it),
@@ -272,7 +289,8 @@ def _cases(cid, natural):
 
 
 def plan(tier, seed):
-    shards = [("static", cid, nat) for cid in COMPOSITES for nat in (True, False)]
+    shards = [("static", cid, nat) for cid in COMPOSITES for nat in (True, False)
+              if nat or cid not in NUCLEON_COMPOSITES]
     for cid in HIST_STARTS:
         for nat in (True, False):
             for kind, value in HIST_GIVEN:
@@ -358,14 +376,15 @@ def finish(total, tier, seed):
 
 
 MANIFEST = dict(
-    text="Bounded-exhaustive enumeration on the real Element / Substance / Material classes: 14 composites (elements, "
-         "substances from string and dictionary, number- and mass-fraction materials from string and dictionary, 1-3 "
-         "components) x given mass density (3 values x 3 unit spellings) or number density (3 values x 2 spellings) x "
-         "volume (none, 2 values x 3 spellings) x both isotope modes = 2940 cases, complete in both tiers. Checked: the "
-         "given density is kept, rho = n M_formula, rho = sum n_i m_i, n_i = amount_i n, sum rho_i = rho, M = rho V, "
-         "sum M_i = M (rel 1e-10) and independence of the unit spelling (rel 1e-12). The same relations after every "
-         "history of <= 2 (thorough 3) add() calls {existing first / last, new component} on 6 live composites x given "
-         "rho / n x with / without volume x both isotope modes.",
+    text="Bounded-exhaustive enumeration on the real Element / Substance / Material classes: 25 composites (elements "
+         "and nucleons, substances from string and dictionary, number- and mass-fraction materials from string and "
+         "dictionary, 1-3 components, nucleon-first and nucleon-last composites in both orders) x given mass density "
+         "(3 values x 3 unit spellings) or number density (3 values x 2 spellings) x volume (none, 2 values x 3 "
+         "spellings) x both isotope modes (nucleon composites: one mode) = 4095 cases, complete in both tiers. "
+         "Checked: the given density is kept, rho = n M_formula, rho = sum n_i m_i, n_i = amount_i n, sum rho_i = rho, "
+         "M = rho V, sum M_i = M (rel 1e-10) and independence of the unit spelling (rel 1e-12). The same relations "
+         "after every history of <= 2 (thorough 3) add() calls {existing first / last, new component} on 6 live "
+         "composites x given rho / n x with / without volume x both isotope modes.",
     note="Trusted: component masses reported by the object (C10), the Dalton row of the unit table, exact decimal "
          "factors between the unit spellings. Not covered: N column, avg row, both densities given, in-place "
          "conversion of the caller's Quantity objects.",
